@@ -1,6 +1,8 @@
 package keeper
 
 import (
+	"sort"
+
 	errorsmod "cosmossdk.io/errors"
 	sdk "github.com/cosmos/cosmos-sdk/types"
 	sdkerrors "github.com/cosmos/cosmos-sdk/types/errors"
@@ -58,7 +60,14 @@ func (dtf ValidateTokenFeeDecorator) AnteHandle(ctx sdk.Context, tx sdk.Tx, simu
 		}
 	}
 
-	for addr, fee := range feeMap {
+	// check the owners in a fixed order: gas consumed and the reported error must not depend on Go's map order
+	addrs := make([]string, 0, len(feeMap))
+	for addr := range feeMap {
+		addrs = append(addrs, addr)
+	}
+	sort.Strings(addrs)
+	for _, addr := range addrs {
+		fee := feeMap[addr]
 		owner, _ := sdk.AccAddressFromBech32(addr)
 		balance := dtf.bk.GetBalance(ctx, owner, fee.Denom)
 		if balance.IsLT(fee) {
